@@ -50,6 +50,8 @@ class Tr:
     def expr(self, e):
         if isinstance(e, ast.Constant) and isinstance(e.value, int) and not isinstance(e.value, bool):
             return str(e.value)
+        if self.ty == 'String' and isinstance(e, ast.Constant) and isinstance(e.value, str):
+            return '"' + e.value.replace('\\', '\\\\').replace('"', '\\"') + '"'
         r = self.ref(e)
         if r is not None:
             if r not in self.locals:
@@ -226,6 +228,15 @@ def _select(fn, sel):
         if isinstance(v, ast.Call) and v.args and len(sel) > 2:
             return v.args[sel[2]]
         return v
+    if sel[0] == 'versiongate':
+        # ('versiongate', nth): the string S of the nth comparison `... > SeismicZfpVersion("S")`
+        hits = [n for n in ast.walk(fn) if isinstance(n, ast.Call) and isinstance(n.func, ast.Name)
+                and n.func.id == 'SeismicZfpVersion' and len(n.args) == 1 and isinstance(n.args[0], ast.Constant)
+                and isinstance(n.args[0].value, str)]
+        hits.sort(key=lambda n: (n.lineno, n.col_offset))
+        if len(hits) <= sel[1]:
+            raise TranslationError(f'version gate #{sel[1]} not found')
+        return hits[sel[1]].args[0]
     if sel[0] == 'ifassign':
         # ('ifassign', target, nth): the test of the if statement whose body assigns `target`
         hits = [n for n in ast.walk(fn) if isinstance(n, ast.If) and any(
@@ -400,6 +411,15 @@ SPEC = [
     # footer writers: padding of one array
     ('footer_pad_segy', 'conversion.py', 'SeismicFileConverter.write_headers', ('callarg', 'bytes', 0, 0), 'Int'),
     ('footer_pad_numpy', 'conversion.py', 'NumpyConverter.write_headers', ('callarg', 'bytes', 0, 0), 'Int'),
+    # version.py and the version gates
+    ('ver_major', 'version.py', 'SeismicZfpVersion.__init__', ('assign_attr', 'major', 1), 'Nat'),
+    ('ver_minor', 'version.py', 'SeismicZfpVersion.__init__', ('assign_attr', 'minor', 1), 'Nat'),
+    ('ver_patch', 'version.py', 'SeismicZfpVersion.__init__', ('assign_attr', 'patch', 1), 'Nat'),
+    ('ver_dev', 'version.py', 'SeismicZfpVersion.__init__', ('assign_attr', 'changes_exist', 1), 'Prop'),
+    ('ver_encoding', 'version.py', 'SeismicZfpVersion.to_encoding', ('assign', 'encoding', 0), 'Nat'),
+    ('gate_reader_footer', 'read.py', 'SgzReader.__init__', ('versiongate', 0), 'String'),
+    ('gate_reader_interval', 'read.py', 'SgzReader._parse_coordinates', ('versiongate', 0), 'String'),
+    ('gate_cropper_footer', 'cropping.py', 'SgzCropper.write_cropped_file_by_indexes', ('versiongate', 0), 'String'),
     # loader.py, 2D
     ('trace_range_offset', 'loader.py', 'SgzLoader2d.read_and_decompress_trace_range', ('assign', 'block_offset', 0), 'Nat'),
     ('trace_range_length', 'loader.py', 'SgzLoader2d.read_and_decompress_trace_range', ('callarg', '_get_compressed_bytes', 0, 1), 'Nat'),
@@ -424,6 +444,8 @@ def translate_one(name, fname, qual, sel, ty):
         params = sorted(tr.params)
     binder = ' '.join(params)
     pty = 'Int' if ty == 'Prop' else ty
+    if name == 'ver_dev':
+        pty = 'Nat'
     sig = f'({binder} : {pty}) ' if params else ''
     return f'/-- `{fname}`: `{qual}` ({" ".join(str(s) for s in sel)}) -/\ndef {name} {sig}: {ty} :=\n  {term}\n'
 
